@@ -79,6 +79,35 @@ def run(F, run, tier):
                     run.check(PI.same_poly(q, [0]) and PI.same_poly(r, a), "R12.3", dp, "small-dividend:" + inst, where,
                               "dividend of lower degree than the divisor: expected (0, dividend), got (%s, %s)" % (q, r))
                 run.check(len(q) >= 1 and len(r) >= 1, "R12.3", dp, "non-empty:" + inst, where, "empty coefficient vector in the result")
+    # complex coefficients (both parts generic; purely imaginary leading coefficients): same identities
+    for la, lb, mk in ((4, 2, "complex"), (4, 3, "complex"), (4, 2, "imaginary-lead"), (5, 3, "imaginary-lead"), (2, 3, "imaginary-lead")):
+        if budget_hits >= 2:
+            break
+        a = PI.csymbols("a", la) if mk == "complex" else PI.with_imaginary_lead("a", la)
+        b = PI.csymbols("b", lb) if mk == "complex" else PI.with_imaginary_lead("b", lb)
+        inst = "%dx%d:%s" % (la, lb, mk)
+        try:
+            v, it = PI.call(F, dv, [PI.poly(a), PI.poly(b)])
+        except vecint.IndexPanic as e:
+            run.fail("R12.3", dp, "panic:" + inst, where, "abstract execution panics: %s" % e.why)
+            continue
+        except sym.Unsupported as u:
+            if isinstance(u, vecint.Budget):
+                budget_hits += 1
+            run.broken("R12.2", dp, inst, F.loc(dv, u.node if isinstance(u.node, dict) else None), str(u))
+            continue
+        if not (isinstance(v, sym.Variant) and v.name == "Ok"):
+            run.fail("R12.2", dp, "result:" + inst, where, "divide returns %r" % (v,))
+            continue
+        q, r = PI.coeffs(v.args[0][0]), PI.coeffs(v.args[0][1])
+        recon = ref_add(ref_mul(q, b), r)
+        run.check(PI.timed(lambda: PI.same_poly(recon, a), 60, False), "R12.2", dp, "reconstruction:" + inst, where,
+                  "with %s coefficients quotient·divisor + remainder differs from the dividend" % mk, sample="%s: a = q·d + r" % inst)
+        rt = PI.trimmed([sp.simplify(x) for x in r])
+        if la >= lb:
+            run.check(len(rt) < lb, "R12.3", dp, "remainder-degree:" + inst, where, "remainder has %d coefficients, divisor has %d" % (len(rt), lb))
+        else:
+            run.check(PI.same_poly(r, a), "R12.3", dp, "small-dividend:" + inst, where, "dividend of lower degree must come back as the remainder")
     if budget_hits < 2:
         run.floor("R12.2", dp, "length pairs", n_cases, 20, where)
     run.extra["length_bound"] = [LA, LB]
